@@ -9,6 +9,7 @@ import (
 	_ "verifharness/checks/c20"
 	_ "verifharness/checks/c21"
 	_ "verifharness/checks/c25"
+	_ "verifharness/checks/c29"
 	_ "verifharness/checks/c30"
 	_ "verifharness/roles"
 )
